@@ -27,6 +27,24 @@ TEXT = {
     "C04": ("Speculation bound (first simulation of f needs f - confirmed <= window; load depth <= window) and the "
             "lockstep contract (no save/load, no Predicted, stall leaves the frame) as TLA+ predicates; exhaustive for "
             "windows 0,1,2 in the model, evaluated on real starvation runs for windows 0..12.", "DESIGN.md section 3 C04"),
+    "C05": ("MC_Link.tla (two endpoints built from Protocol.tla's operators, lossy/duplicating/reordering link, fair "
+            "retransmission) is checked for stream integrity and for the liveness property NoWedge; the bounded-"
+            "exhaustive fault space (every set of <=K faults on the first M packets, enumerated by TLC from "
+            "FaultPlan.tla) and random burst outages are executed on real sessions under the virtual clock and the "
+            "TLA+ monitor demands progress after the faults ended and no Disconnected event.", "DESIGN.md section 3 C05"),
+    "C06": ("Spectator monitor in TLA+ (each frame handed to a spectator = owner-side truth / Disconnected beyond the "
+            "host's cut-off, gapless from 0, never beyond the host's confirmed frame, catch-up count rule, "
+            "SpectatorTooFarBehind iff the ring was overrun) evaluated by TLC on real host+spectator traces with "
+            "pauses, lag, loss and host-side drops; twin runs with/without spectators compared by Trace_Twin.tla.",
+            "DESIGN.md section 3 C06"),
+    "C07": ("Timing predicates over the virtual clock (NetworkInterrupted / Disconnected neither early nor late, once) "
+            "and final-timeline predicates (real inputs up to the cut-off, default+Disconnected after it) evaluated by "
+            "TLC on real two-peer traces with kills at random frames, packets in flight, explicit disconnect_player, "
+            "rollback and lockstep, spectators.", "DESIGN.md section 3 C07"),
+    "C09": ("No DesyncDetected in any behaviour of the model (exhaustive, desync interval 1-2) nor in any real trace of a "
+            "deterministic game (intervals 1..12); a deliberately diverging game is detected by every peer within 3 "
+            "intervals with the checksums the games really saved (TLA+ predicates over the logged events).",
+            "DESIGN.md section 3 C09"),
 }
 
 NOTE = ("Trusted: TLC 1.8.0 + CommunityModules, the harness projection (world.rs) and virtual clock shim, the "
